@@ -225,6 +225,8 @@ def gen_experiments(rng, component, n, stated, on_line=True, units=None, t_lo=28
         if all(b - a >= 1.0 for a, b in zip(temps, temps[1:])):
             break
     e_act = rng.uniform(-60e3, 120e3)
+    if rng.random() < 0.1:
+        e_act = rng.choice([0.0, 0.0, 1e-9, -1e-9, 1.0])  # a temperature-independent permeance is a legitimate statement
     p0 = gen_permeance_value(rng, 1e-5, 0.3)
     t0 = temps[0]
     exps = []
